@@ -172,6 +172,8 @@ def run(ctx):
     cmp_fn(ctx, 'blockiterator.__init__', PAD, 'blockiterator.__init__', S.BLOCKITERATOR_INIT)
     cmp_fn(ctx, 'blockiterator.reset', PAD, 'blockiterator.reset', S.BLOCKITERATOR_RESET)
 
+    dependencies(ctx, ['crysp/bits.py', 'crysp/md.py', 'crysp/padding.py', 'crysp/sha.py', 'crysp/utils/operators.py'], 'C01')
+
 
 def check_zero_fill(ctx, cls, nterm, marker_bits):
     """Tabulate the zero-fill length N(needed) over the whole domain."""
